@@ -1037,6 +1037,13 @@ def run(ctx):
                     clean = clean and fl[0] == 1
                     if mres == [1, 5]:
                         stats["unspecified"] += 1
+                        if clean and (flavour[0] is False or flavour[1] is True):
+                            # C16_guarded_never_unspecified: impossible after clean (hence guarded) calls
+                            ctx.violation("the model answers 'unspecified' after a clean call sequence: %s"
+                                          % json.dumps([op_json(o) for o in b["ops"][:i + 1]])[:300],
+                                          dict(kind="model-unspecified", flavour=list(flavour),
+                                               ops=[op_json(o) for o in b["ops"][:i + 1]]),
+                                          no_input=True, theorem="C16_guarded_never_unspecified (the extracted model disagrees with the theorem)")
                         clean = False
                         break
                     if target_name == "fs":
